@@ -66,6 +66,8 @@ m("c13-no-copy", ["C13"], "circuit_lookup.py", "    return mubInfo.copy()", "   
 m("c13-memoised-parse", ["C13"], "circuit_lookup.py", "    def parse_circuit(self) -> QuantumCircuit:\n        return parse_circuit(self.num_qubits, self.circuit_string)",
   "    def parse_circuit(self) -> QuantumCircuit:\n        if not hasattr(self, \"_qc\"):\n            self._qc = parse_circuit(self.num_qubits, self.circuit_string)\n        return self._qc")
 m("c13-graph-cached", ["C13"], "connectivity_support.py", "    if connectivity == \"all\":\n        return Graph.fully_connected(num_qubits)", "    if connectivity == \"all\":\n        return _all_cache.setdefault(num_qubits, Graph.fully_connected(num_qubits))")
+m("c13-class-memo-on-object", ["C13"], "lc_classes.py", "    num_qubits = stabilizer.num_qubits\n    assert 2 <= num_qubits <= 6, \"LC class determination is only supported for up to 6 qubits\"\n    if num_qubits == 2:\n        return determine_lc_class2(stabilizer)",
+  "    num_qubits = stabilizer.num_qubits\n    assert 2 <= num_qubits <= 6, \"LC class determination is only supported for up to 6 qubits\"\n    if getattr(stabilizer, \"_lc_memo\", None) is not None:\n        return stabilizer._lc_memo\n    if num_qubits >= 3:\n        stabilizer._lc_memo = {3: determine_lc_class3, 4: determine_lc_class4, 5: determine_lc_class5, 6: determine_lc_class6}[num_qubits](stabilizer)\n        return stabilizer._lc_memo\n    if num_qubits == 2:\n        return determine_lc_class2(stabilizer)")
 # ---- C14
 m("c14-parser-y", ["C14", "C01"], "stabilizer.py", "                    self.S[col, row] = int(character in \"ZY\")", "                    self.S[col, row] = int(character in \"Z\")")
 m("c14-export-chs", ["C14"], "stabilizer.py", "        chs = [\"I\", \"X\", \"Z\", \"Y\"]", "        chs = [\"I\", \"X\", \"Y\", \"Z\"]")
